@@ -278,10 +278,13 @@ def reencoded_in_tokenize(ctx):
     CONVERT_STEP[0] = None
     # the same written as a loop: the returned vector is filled by push() only, and every pushed token is built right there with
     # subtraction-dependent deltas (whatever was converted before is an intermediate value of the same function)
-    fin = pushed_final_tokens(b)
-    if fin and all(depends_on_sub(b, ops["delta_line"], carried=True) and depends_on_sub(b, ops["delta_start"], carried=True) for _, ops in fin):
+    # (a re-encoding helper of the same file - `Ok(encode_relative(absolute))` - is part of tokenize: it is spliced in)
+    from vlib.inline import inlined
+    bi = inlined(ctx.prog, b)
+    fin = pushed_final_tokens(bi)
+    if fin and all(depends_on_sub(bi, ops["delta_line"], carried=True) and depends_on_sub(bi, ops["delta_start"], carried=True) for _, ops in fin):
         CONVERT_STEP[0] = norm(b.id)
-        return True, "loop: every token pushed into the returned vector is built with differences"
+        return True, "loop: every token pushed into the returned vector is built with differences" + (" (in %s)" % ", ".join(x.split("::")[-1] for x in bi.f.get("inlined", [])) if bi.f.get("inlined") else "")
     return False, "no filter_map(convert).map(re-encode).collect() chain (or push loop) with subtraction-dependent deltas in LspProject::tokenize"
 
 
